@@ -180,7 +180,26 @@ def attr_lookup_spec(ctx, fn_name):
 # answer does not depend on whether a look-up is written inline, through a shared helper, as an iterator chain or as
 # a loop.  Values are ('const', NAME) | ('lit', text) | ('param', index) | ('?', text).
 
+_CONST_STR = {}
+
+
+def _const_str(ctx, name):
+    """The string a `const NAME: &str = ".."` of parser.rs stands for (None if it is not such a constant)."""
+    if not _CONST_STR.get(id(ctx)):
+        _CONST_STR.clear()
+        _CONST_STR[id(ctx)] = {i['name']: i['strings'][0] for i in ctx.astq['items'] if i['kind'] in ('const', 'static') and i['file'].endswith('parser.rs') and len(i.get('strings') or []) == 1}
+    return _CONST_STR[id(ctx)].get(name)
+
+
 def _val(v, params):
+    v0 = vt.unvar(v)
+    # the loop variable of `for ns in namespaces` (a parameter holding a list): one value per element at the call site
+    if isinstance(v0, dict) and v0.get('k') == 'elem':
+        of = vt.unvar(v0.get('of'))
+        while isinstance(of, dict) and (of.get('k') in ('ref', 'deref', 'paren') or (of.get('k') == 'call' and of.get('f') in ('iter', 'into_iter', 'copied', 'cloned') and of.get('recv') is not None)):
+            of = vt.unvar(of.get('v') if of.get('k') != 'call' else of.get('recv'))
+        if isinstance(of, dict) and of.get('k') == 'atom' and not of.get('path') and of.get('root') in params:
+            return ('param-elem', params.index(of['root']))
     v = vt.strip(v)
     if isinstance(v, dict):
         if v.get('k') == 'lit':
@@ -229,16 +248,54 @@ def lookup_summary(ctx, fn_name, _memo=None, _stack=()):
             for (a, b, kd) in sub:
                 def bind(x):
                     if x[0] == 'param':
-                        return _val(c['args'][x[1]], params) if x[1] < len(c.get('args', [])) else ('?', 'arg')
-                    return x
-                out.add((bind(a), bind(b), kd))
+                        return [_val(c['args'][x[1]], params)] if x[1] < len(c.get('args', [])) else [('?', 'arg')]
+                    if x[0] == 'param-elem':
+                        if x[1] >= len(c.get('args', [])):
+                            return [('?', 'arg')]
+                        lst = vt.strip(c['args'][x[1]])
+                        while isinstance(lst, dict) and lst.get('k') in ('ref', 'deref', 'paren'):
+                            lst = vt.strip(lst.get('v'))
+                        if isinstance(lst, dict) and lst.get('k') == 'array' and lst.get('items'):
+                            return [_val(it, params) for it in lst['items']]
+                        if isinstance(lst, dict) and lst.get('k') == 'atom' and not lst.get('path') and lst.get('root') in params:
+                            return [('param-elem', params.index(lst['root']))]
+                        return [('?', vt.show(lst)[:30])]
+                    return [x]
+                for a2 in bind(a):
+                    for b2 in bind(b):
+                        out.add((a2, b2, kd))
     memo[fn_name] = out
     return out
 
 
+def bool_result(f):
+    """The value of a bool-returning function as ONE boolean value tree, early returns folded in:
+    `if c { return true } rest`  ≡  c || rest;   `if c { return false } rest`  ≡  !c && rest.
+    Returns (value, None) or (None, reason) when an early return is not of that foldable form."""
+    res = f.get('tail')
+    for r in reversed(f.get('returns', [])):
+        frames = [fr for fr in r.get('guard', []) if fr.get('k') in ('if', 'arm', 'for', 'while', 'loop', 'closure')]
+        v = vt.strip(r.get('v'))
+        if len(frames) != 1 or frames[0].get('k') != 'if' or not (isinstance(v, dict) and v.get('k') == 'lit' and isinstance(v.get('v'), bool)):
+            return None, f"line {r.get('line')}: `return {vt.show(r.get('v'))[:50]}` under {[fr.get('k') for fr in frames]}"
+        c = frames[0].get('c')
+        if frames[0].get('neg'):
+            c = {'k': 'op', 'op': '!', 'args': [c], 'ty': 'bool'}
+        if v['v'] is True:
+            res = {'k': 'op', 'op': '||', 'args': [c, res], 'ty': 'bool'}
+        else:
+            res = {'k': 'op', 'op': '&&', 'args': [{'k': 'op', 'op': '!', 'args': [c], 'ty': 'bool'}, res], 'ty': 'bool'}
+    return res, None
+
+
 def lookup_closed(ctx, fn_name):
     """Summary restricted to fully bound triples: {(NAMESPACE, name, kind)}; unbound ones are returned separately."""
-    sm = lookup_summary(ctx, fn_name)
+    sm = set()
+    for a, b, kd in lookup_summary(ctx, fn_name):
+        # an argument name spelled through a string constant (`const FLAG_SKIP: &str = "skip"`) is that string
+        if b[0] == 'const' and _const_str(ctx, b[1]) is not None and b[1] not in ('SERDE', 'TYPESHARE'):
+            b = ('lit', _const_str(ctx, b[1]))
+        sm.add((a, b, kd))
     closed = {(a[1], b[1], kd) for a, b, kd in sm if a[0] == 'const' and b[0] == 'lit'}
     open_ = {(a, b, kd) for a, b, kd in sm if not (a[0] == 'const' and b[0] == 'lit')}
     return closed, open_
